@@ -69,6 +69,9 @@ type output struct {
 	HistoriesChecked int   `json:"histories_checked"`
 	HistoryOps       int   `json:"history_ops"`
 	HistoriesUnknown int   `json:"histories_unknown"`
+	// OverlappedOps counts the recorded operations during which another operation was called or
+	// returned: the measure of how much real concurrency the histories contain.
+	OverlappedOps int `json:"history_ops_overlapped"`
 	// HistoriesPorcupine counts the histories on which porcupine reached a verdict within its
 	// timeout (the own search decides the rest alone).
 	HistoriesPorcupine int `json:"histories_decided_by_porcupine_too"`
@@ -122,7 +125,7 @@ func main() {
 	scenario := flag.String("scenario", "", "run only this scenario (e.g. MutexMap/same-key-add, counter-sum)")
 	round := flag.Int("round", -1, "run only this round of the selected scenarios")
 	repeat := flag.Int("repeat", 1, "execute every round's program this many times")
-	flipsPerRound := flag.Int("flips-per-round", 60, "section 3: schedule flips per round")
+	flipsPerRound := flag.Int("flips-per-round", 10, "section 3: schedule flips per round")
 	paranoid := flag.Bool("paranoid", false, "section 1: additionally run the reduction-free search on every history")
 	flag.Parse()
 	if *rounds < 1 || *gor < 2 || *repeat < 1 || *flipsPerRound < 1 || flag.NArg() != 0 {
